@@ -7,7 +7,9 @@
  *        identities, inline == exported == the pointer a_pid_fuzzy_opr hands out.
  *   PID  a_pid_fuzzy_{run,pos,inc}: gains == base + weighted mean of the active consequents
  *        (quad), finite, inside [min,max] of the active consequents; scratch buffer is an exact-size
- *        heap block of A_PID_FUZZY_BFUZZ(N) bytes (ASan red zone directly behind it).
+ *        heap block of A_PID_FUZZY_BFUZZ(N) bytes (ASan red zone directly behind it); the same block at every start
+ *        offset inside a larger heap block with guard bytes around it, all N sets active, gains bitwise == a twin on a
+ *        malloc'ed block (pid_scratch_alignment; offsets off an a_real boundary in the side configuration unaligned-scratch).
  *
  * Tolerances (DESIGN.md C13; deviations are explained where they are used):
  *   MF range      bitwise [0,1]; dsig [-2eps, 1+2eps]
@@ -1531,8 +1533,183 @@ static void pid_controller(int order, unsigned opr, int kind_e, int kind_ec, vf_
     free(mec.tab);
 }
 
+/* "its scratch buffer of the documented size is never overrun" at EVERY start address the documentation allows: a_pid_fuzzy_set_bfuzz
+   takes a `void *` to "a buffer at least A_PID_FUZZY_BFUZZ(num)" and asks for nothing else, while malloc only ever hands out 16-aligned
+   starts (seeded change C13-I: set_bfuzz rounds the caller's pointer up to a multiple of sizeof(a_real) while the size macro has no slack
+   for the shift, so an exact-size scratch that starts off such a boundary is overrun behind its end; every malloc'ed scratch is unaffected).
+   The exact-size scratch is placed at byte offset `off` of a heap block, twice: (G) followed by 32 harness guard bytes that are compared
+   after every call (independent of ASan, whose 8-byte checks look at the first shadow granule only), (A) ending exactly at the end of
+   the malloc block (ASan red zone behind the contract); the bytes in front of the scratch are guard bytes in both.  All N = order sets of
+   both tables contain every input, so the block is used up to its last a_real (counted, not judged).  A twin controller with the same
+   configuration on an ordinary exact-size malloc block is stepped alongside: output and gains must agree bit for bit.
+   Offsets: the unchanged library stores unsigned at +0 and a_real at +2N*sizeof(unsigned), so under UBSan's alignment check (the main
+   configuration) only multiples of _Alignof(a_real) are used; the side configuration "unaligned-scratch" (-fno-sanitize=alignment for library
+   and harness, -DVF_UNALIGNED_SCRATCH) runs this clause alone on every offset 1..7 and a few larger ones. */
+#ifdef VF_UNALIGNED_SCRATCH
+static size_t const scratch_off[] = {1, 2, 3, 4, 5, 6, 7, 9, 12, 20, 36, 68};
+#else
+static size_t const scratch_off[] = {0, 8, 16, 24, 40, 72};
+#endif
+#define SCRATCH_GUARD 32
+static int scratch_guards(unsigned char const *blk, size_t off, size_t sz, size_t tail, int N, unsigned opr, char const *what, int step)
+{
+    size_t k;
+    for (k = 0; k < off && blk[k] == 0xC3; ++k) {}
+    if (k < off)
+    {
+        vf_viol("pid_fuzzy/scratch-underrun/byte-in-front-of-the-block-written", "N=%d opr %u, %zu byte scratch at offset %zu of a heap block: after %s (step %d) the byte %zu in front of it is 0x%02X",
+                N, opr, sz, off, what, step, off - k, blk[k]);
+        return 1;
+    }
+    for (k = 0; k < tail && blk[off + sz + k] == 0xC3; ++k) {}
+    if (k < tail)
+    {
+        vf_viol("pid_fuzzy/scratch-overrun/byte-behind-documented-size-written", "N=%d opr %u, scratch of A_PID_FUZZY_BFUZZ(%d) = %zu bytes at offset %zu of a heap block (start address %% %zu = %zu): "
+                "after %s (step %d) guard byte +%zu behind the buffer is 0x%02X", N, opr, N, sz, off, sizeof(a_real), (size_t)((uintptr_t)(blk + off) % sizeof(a_real)), what, step, k, blk[off + sz + k]);
+        return 1;
+    }
+    return 0;
+}
+
+static void pid_scratch_alignment(int N, unsigned opr, vf_rng *r)
+{
+    size_t const sz = A_PID_FUZZY_BFUZZ((size_t)N);
+    double const L = vf_chance(r, 1, 2) ? 1 : vf_logu(r, -2, 3), h = N > 1 ? 2 * L / (N - 1) : L;
+    mtab t[2];
+    double *mk[3], base[3], set[8], fdb[8];
+    int fn[8], nst = 6, i, g, opk, overrun = 0;
+    unsigned char fill[sizeof(a_real)];
+    memset(fill, 0xA5, sizeof(fill));
+    for (opk = 0; opk < NOPS && ops[opk].pid != opr; ++opk) {}
+    if (opk == NOPS) { opk = 0; }
+    /* every set of both tables contains [-L, L] with a degree >= 1/2: N sets are active in e and in ec at every step */
+    for (g = 0; g < 2; ++g)
+    {
+        int const tri = vf_chance(r, 1, 2);
+        double *w;
+        memset(&t[g], 0, sizeof(t[g]));
+        t[g].kind = tri ? T_TRI_WIDE : T_GAUSS;
+        t[g].L = L;
+        t[g].nsets = N;
+        for (i = 0; i < N; ++i)
+        {
+            tset *s = &t[g].s[i];
+            double const c = N > 1 ? -L + h * i : 0;
+            if (tri) { s->fam = A_MF_TRI; s->p[0] = c - 4 * L; s->p[1] = c; s->p[2] = c + 4 * L; }
+            else { s->fam = A_MF_GAUSS; s->p[0] = 2 * L * vf_uniform(r, 1, 2); s->p[1] = c; }
+            t[g].len += 1 + (size_t)fam_np[s->fam];
+        }
+        w = t[g].tab = (double *)malloc(sizeof(double) * t[g].len);
+        for (i = 0; i < N; ++i)
+        {
+            *w++ = t[g].s[i].fam;
+            memcpy(w, t[g].s[i].p, sizeof(double) * (size_t)fam_np[t[g].s[i].fam]);
+            w += fam_np[t[g].s[i].fam];
+        }
+    }
+    for (g = 0; g < 3; ++g)
+    {
+        mk[g] = (g && vf_chance(r, 1, 8)) ? NULL : (double *)malloc(sizeof(double) * (size_t)(N * N));
+        for (i = 0; mk[g] && i < N * N; ++i) { mk[g][i] = vf_uniform(r, -8, 8); }
+        base[g] = vf_chance(r, 1, 2) ? 0 : vf_uniform(r, -100, 100);
+    }
+    {
+        double prev = 0;
+        int idx[8], near = 0;
+        double val[8];
+        for (i = 0; i < nst; ++i)
+        {
+            double const e = L * vf_uniform(r, -0.5, 0.5); /* ec = e - previous e stays inside [-L, L] */
+            fdb[i] = vf_chance(r, 1, 2) ? 0 : L * vf_uniform(r, -3, 3);
+            set[i] = fdb[i] + e;
+            fn[i] = (int)vf_below(r, 3);
+            if (tab_eval(&t[0], set[i] - fdb[i], idx, val, 0, &near) != N || tab_eval(&t[1], (set[i] - fdb[i]) - prev, idx, val, 0, &near) != N)
+            {
+                fprintf(stderr, "C13 harness: scratch-alignment plan does not activate all %d sets\n", N);
+                exit(2);
+            }
+            prev = set[i] - fdb[i];
+        }
+    }
+    vf_log("a_pid_fuzzy scratch at every start offset: order = N = %d (%zu bytes), opr %u(%s), L=%a, me %s, mec %s", N, sz, opr, ops[opk].name, L, tab_name[t[0].kind], tab_name[t[1].kind]);
+    for (size_t o = 0; o < sizeof(scratch_off) / sizeof(*scratch_off) && !overrun; ++o)
+    {
+        size_t const off = scratch_off[o];
+        for (int place = 0; place < 2 && !overrun; ++place) /* 0: guard bytes behind the scratch; 1: the end of the malloc block behind it */
+        {
+            size_t const tail = place ? 0 : SCRATCH_GUARD;
+            unsigned char *blk = (unsigned char *)malloc(off + sz + tail), *buf = blk + off;
+            void *tbuf = malloc(sz);
+            a_pid_fuzzy *c[2];
+            int used = 0;
+            memset(blk, 0xC3, off + sz + tail);
+            memset(buf, 0xA5, sz);
+            memset(tbuf, 0xA5, sz);
+            vf_log(" scratch = block + %zu (%s), address %% %zu = %zu", off, place ? "ends at the end of the malloc block" : "32 guard bytes behind it", sizeof(a_real), (size_t)((uintptr_t)buf % sizeof(a_real)));
+            for (g = 0; g < 2; ++g)
+            {
+                c[g] = (a_pid_fuzzy *)malloc(sizeof(*c[g]));
+                memset(c[g], 0, sizeof(*c[g]));
+                c[g]->pid.summax = 1e9;
+                c[g]->pid.summin = -1e9;
+                c[g]->pid.outmax = 1e9;
+                c[g]->pid.outmin = -1e9;
+                a_pid_fuzzy_set_opr(c[g], opr);
+                a_pid_fuzzy_set_rule(c[g], (unsigned)N, t[0].tab, t[1].tab, mk[0], mk[1], mk[2]);
+                a_pid_fuzzy_set_bfuzz(c[g], g ? tbuf : (void *)buf, (a_size)N);
+                a_pid_fuzzy_set_kpid(c[g], base[0], base[1], base[2]);
+                a_pid_fuzzy_init(c[g]);
+            }
+            VF_COUNT("pid-scratch-every-start-offset-getter-and-layout");
+            if (a_pid_fuzzy_bfuzz(c[0]) != (void *)buf || (void *)c[0]->idx != (void *)buf || (unsigned char *)c[0]->val < buf + 2 * sizeof(unsigned) * (size_t)N ||
+                (unsigned char *)c[0]->val + sizeof(a_real) * (size_t)((2 + N) * N) > buf + sz || c[0]->nfuzz != (unsigned)N)
+            {
+                vf_viol("pid_fuzzy/bfuzz-getter-or-layout-ne-block-set", "a_pid_fuzzy_set_bfuzz(block + %zu = %p (address %% %zu = %zu), N=%d) of %zu bytes: a_pid_fuzzy_bfuzz() = %p, idx at %+td, val at %+td (+ %zu bytes of values), nfuzz %u",
+                        off, (void *)buf, sizeof(a_real), (size_t)((uintptr_t)buf % sizeof(a_real)), N, sz, a_pid_fuzzy_bfuzz(c[0]), (unsigned char *)c[0]->idx - buf, (unsigned char *)c[0]->val - buf,
+                        sizeof(a_real) * (size_t)((2 + N) * N), c[0]->nfuzz);
+            }
+            /* a getter/layout violation does not end the case: what matters is whether the calls then write outside the block */
+            overrun = scratch_guards(blk, off, sz, tail, N, opr, "set_bfuzz/init", -1);
+            for (i = 0; i < nst && !overrun; ++i)
+            {
+                static char const *const fnn[3] = {"a_pid_fuzzy_run", "a_pid_fuzzy_pos", "a_pid_fuzzy_inc"};
+                double out[2];
+                for (g = 0; g < 2; ++g)
+                {
+                    out[g] = fn[i] == 0 ? a_pid_fuzzy_run(c[g], set[i], fdb[i]) : fn[i] == 1 ? a_pid_fuzzy_pos(c[g], set[i], fdb[i]) : a_pid_fuzzy_inc(c[g], set[i], fdb[i]);
+                }
+                ++vf.evals;
+                VF_COUNT("pid-scratch-every-start-offset-guards-intact");
+                if (scratch_guards(blk, off, sz, tail, N, opr, fnn[fn[i]], i)) { overrun = 1; break; }
+                VF_COUNT("pid-scratch-every-start-offset-gains==aligned-twin");
+                if (!same_bits(out[0], out[1]) || !same_bits(c[0]->pid.kp, c[1]->pid.kp) || !same_bits(c[0]->pid.ki, c[1]->pid.ki) || !same_bits(c[0]->pid.kd, c[1]->pid.kd))
+                {
+                    vf_viol("pid_fuzzy/scratch-start-offset-changes-gains", "N=%d opr %s, scratch at block + %zu (address %% %zu = %zu), step %d %s(%a, %a): out %a kp %a ki %a kd %a; twin on a malloc'ed scratch: out %a kp %a ki %a kd %a",
+                            N, ops[opk].name, off, sizeof(a_real), (size_t)((uintptr_t)buf % sizeof(a_real)), i, fnn[fn[i]], set[i], fdb[i], out[0], c[0]->pid.kp, c[0]->pid.ki, c[0]->pid.kd, out[1], c[1]->pid.kp,
+                            c[1]->pid.ki, c[1]->pid.kd);
+                }
+                if (memcmp(buf + sz - sizeof(a_real), fill, sizeof(a_real)) != 0) { used = 1; }
+            }
+            if (used) { VF_COUNT("pid-scratch-used-up-to-its-last-real"); }
+            vf_distinct(vf_hash64(vf_hash64(vf_hash64(vf_hash64(5, (uint64_t)opk), (uint64_t)N), (uint64_t)off), (uint64_t)place));
+            if (!vf.case_viol && place == 0 && o == 0 && vf_want_sample())
+            {
+                vf_sample("a_pid_fuzzy order = N = %d opr %s: exact-size scratch (%zu bytes) at block + {%zu..%zu} with guard bytes / the malloc end behind it, all %d x %d rules active: guards intact after every call, "
+                          "a_pid_fuzzy_bfuzz() == pointer set, out/kp/ki/kd bitwise == twin on a malloc'ed scratch", N, ops[opk].name, sz, scratch_off[0], scratch_off[sizeof(scratch_off) / sizeof(*scratch_off) - 1], N, N);
+            }
+            free(c[0]);
+            free(c[1]);
+            free(tbuf);
+            free(blk);
+        }
+    }
+    for (g = 0; g < 3; ++g) { free(mk[g]); }
+    free(t[0].tab);
+    free(t[1].tab);
+}
+
 /* ------------------------------------------------------------------ plan */
-enum { K_MF, K_OP_GRID, K_OP_RANDOM, K_PID };
+enum { K_MF, K_OP_GRID, K_OP_RANDOM, K_PID, K_PID_SCRATCH };
 typedef struct { int kind; uint64_t arg; } plan_t;
 static plan_t *plan;
 static uint64_t nplan;
@@ -1554,6 +1731,23 @@ static void vf_init(void)
     /* interleave the three groups so that every worker gets a share of each */
     uint64_t const mf_reps = vf.tier ? 750 : 12, op_cases = vf.tier ? 10000 : 160, pid_reps = vf.tier ? 300 : 5;
     uint64_t rep;
+    /* scratch block at every start offset (seeded change C13-I): every order x every selector; the side configuration runs nothing else */
+    uint64_t const scr_reps =
+#ifdef VF_UNALIGNED_SCRATCH
+        vf.tier ? 40 : 3;
+#else
+        vf.tier ? 10 : 1;
+#endif
+    for (rep = 0; rep < scr_reps; ++rep)
+    {
+        for (int n = 1; n <= 7; ++n)
+        {
+            for (int o = 0; o < 8; ++o) { plan_add(K_PID_SCRATCH, (uint64_t)n | (uint64_t)o << 4 | rep << 16); }
+        }
+    }
+#ifdef VF_UNALIGNED_SCRATCH
+    return;
+#endif
     plan_add(K_OP_GRID, 0);
     for (rep = 0; rep < mf_reps; ++rep)
     {
@@ -1587,10 +1781,18 @@ static void vf_fini(void) { fam_max_flush(); }
 static void vf_case(uint64_t cno, vf_rng *r)
 {
     plan_t const pl = plan[cno];
+#ifndef VF_UNALIGNED_SCRATCH
     if (cno == 0) { bfuzz_macro_hygiene(""); }
     if (cno % 8 == 3) { mf_extreme(r, "", 64); if (vf.case_viol) { return; } }
+#endif
     switch (pl.kind)
     {
+    case K_PID_SCRATCH:
+    {
+        int const n = (int)(pl.arg & 0xF), o = (int)(pl.arg >> 4 & 0xF);
+        pid_scratch_alignment(n, o < 7 ? (unsigned)o : (vf_chance(r, 1, 2) ? 7u : 1000u), r);
+        break;
+    }
     case K_MF:
     {
         int const f = (int)(pl.arg & 0xFF), g = (int)(pl.arg >> 8 & 0xFF), s = (int)(pl.arg >> 16 & 0xFF), o = (int)(pl.arg >> 24 & 0xFF);
